@@ -367,12 +367,12 @@ def _huberdom(info, o):
 
 
 SPECS = [
-    FSpec('L1Norm', TENS + ['pw_rn2_2'], [{}],
+    FSpec('L1Norm', TENS + ['rn2x2'] + ['pw_rn2_2'], [{}],
           lambda sp, o: odl.solvers.L1Norm(sp), lambda i, o: ref_lpnorm(i, 1), dom=_nonzero),
-    FSpec('L2Norm', TENS + ['pw_rn2_2', 'pr_rn2_rn2_w'], [{}],
+    FSpec('L2Norm', TENS + ['rn2x2'] + ['pw_rn2_2', 'pr_rn2_rn2_w'], [{}],
           lambda sp, o: odl.solvers.L2Norm(sp), lambda i, o: ref_lpnorm(i, 2),
           dom=_normnonzero, prox_tol=1e-6),
-    FSpec('L2NormSquared', TENS + ['pw_rn2_2', 'pr_rn2_rn2_w'], [{}],
+    FSpec('L2NormSquared', TENS + ['rn2x2'] + ['pw_rn2_2', 'pr_rn2_rn2_w'], [{}],
           lambda sp, o: odl.solvers.L2NormSquared(sp),
           lambda i, o: (lambda z: i.norm2(z))),
     FSpec('LpNorm', TENS + ['rn2x2'], [{'p': 'inf'}, {'p': 1}, {'p': 2}, {'p': 1.5}, {'p': 3}],
@@ -398,7 +398,7 @@ SPECS = [
           lambda i, o: (lambda z: float(o['c']))),
     FSpec('ZeroFunctional', ['rn3', 'ud3'], [{}],
           lambda sp, o: odl.solvers.ZeroFunctional(sp), lambda i, o: (lambda z: 0.0)),
-    FSpec('IndicatorBox', TENS,
+    FSpec('IndicatorBox', TENS + ['rn2x2'],
           [{'lower': -1.0, 'upper': 1.0}, {'lower': 0.0, 'upper': None},
            {'lower': None, 'upper': 0.5}, {'lower': 'elem', 'upper': 'elem'},
            {'lower': 'elem', 'upper': 2.0}, {'lower': None, 'upper': None}],
@@ -409,7 +409,7 @@ SPECS = [
     FSpec('IndicatorZero', ['rn3', 'ud3'], [{}, {'c': 2.0}],
           lambda sp, o: odl.solvers.IndicatorZero(sp, o.get('c', 0)),
           lambda i, o: (lambda z: float(o.get('c', 0)) if not np.any(z) else INF)),
-    FSpec('KullbackLeibler', TENS, [{'prior': None}, {'prior': 'elem'}, {'prior': 'elem0'}],
+    FSpec('KullbackLeibler', TENS + ['rn2x2'], [{'prior': None}, {'prior': 'elem'}, {'prior': 'elem0'}],
           lambda sp, o: odl.solvers.KullbackLeibler(sp, _prior_el(sp, o)),
           lambda i, o: ref_kl(i, _prior(i, o)), V=V5, dom=_pos, posdom=True),
     FSpec('KullbackLeiblerConvexConj', TENS, [{'prior': None}, {'prior': 'elem'}, {'prior': 'elem0'}],
@@ -424,7 +424,7 @@ SPECS = [
               sp, None if o['prior'] is None else _el(sp, _PRIOR)).convex_conj,
           lambda i, o: ref_kl_ce_cc(i, _prior(i, o)), V=[-2.0, -0.5, 0.0, 1.0, 2.0],
           dom=lambda i, o: (lambda z: True)),
-    FSpec('Huber', TENS + POW, [{'gamma': 0.5}, {'gamma': 1.0}],
+    FSpec('Huber', TENS + ['rn2x2'] + POW, [{'gamma': 0.5}, {'gamma': 1.0}],
           lambda sp, o: odl.solvers.Huber(sp, o['gamma']),
           lambda i, o: ref_huber(i, o['gamma']), dom=_huberdom),
     FSpec('NuclearNorm', ['nest_rn1_2x2', 'nest_rn2_2x2'],
